@@ -3,9 +3,14 @@
 (* scenarios separately; the driver pairs them).  `out` = the scenario, features derived by the    *)
 (* specification (used in violation signatures) and the outcome the repaired implementation-shaped *)
 (* layer predicts for it.  Exported with `tlc -dump`.                                              *)
-EXTENDS ProxyMsgDefs, Json
+(* Two modes: "scn" enumerates the scenarios of the two spaces (scenario, stratum, sequence length; *)
+(* cheap); the driver draws the cases from them and hands the scenarios it drew back (file named by *)
+(* IOEnv.VERIF_PICK, one [dir, s] per line); "vec" computes the full vector of each of those.        *)
+EXTENDS ProxyMsgDefs, Json, IOUtils
 
-CONSTANTS ReqSpace, RespSpace
+CONSTANTS ReqSpace, RespSpace, Mode
+
+Chosen == ndJsonDeserialize(IOEnv.VERIF_PICK)
 
 VARIABLES out,    \* the vector, as JSON text ("": not computed yet)
           kind,   \* "req" | "resp" | "dims"
@@ -19,10 +24,14 @@ PathClass == <<"plain", "esc-unreserved", "esc-space", "esc-slash", "esc-qmark",
 ASSUME Len(PathClass) = Len(Paths)
 QueryClass == <<"none", "plain", "esc-multi">>
 
+(* the stratum the driver draws a request scenario from: the load-balancing policies, the path / query classes, the rest *)
+Stratum(s) == IF s.lb # "default" THEN "lb" ELSE IF s.path # 1 \/ s.query # 1 THEN "target" ELSE "main"
+ReqRec(s)  == [dir |-> "req", s |-> s, stratum |-> Stratum(s)]
+RespRec(s) == [dir |-> "resp", s |-> s, reqs |-> Reqs(s), parOk |-> s \in ParScn]
+
 ReqVec(s) ==
     [dir |-> "req", s |-> s, pathcls |-> PathClass[s.path], querycls |-> QueryClass[s.query],
-     \* the stratum the driver draws the scenario from: the load-balancing policies, the path / query classes, the rest
-     stratum |-> IF s.lb # "default" THEN "lb" ELSE IF s.path # 1 \/ s.query # 1 THEN "target" ELSE "main",
+     stratum |-> Stratum(s),
      path |-> Paths[s.path], query |-> Queries[s.query],
      exp |-> Outcome(Exchange(s, DefaultRespScn, AllFixed))]
 
@@ -54,15 +63,16 @@ RespVec(s) ==
    flight at the same time on one proxy instance, see ProxyMsgPar) *)
 Dims == [dir |-> "dims", ctypes |-> CTypeSeq, par |-> ParDegrees]
 
-(* the scenarios are the initial states (cheap), the vector of each is computed by a step (TLC computes
+(* "vec": the scenarios are the initial states, the vector of each is computed by a step (TLC computes
    initial states with one thread, steps with all workers); the driver skips the states without a vector *)
-Init == /\ out = ""
-        /\ \/ kind = "req" /\ scn \in ReqSpace
-           \/ kind = "resp" /\ scn \in RespSpace
-           \/ kind = "dims" /\ scn = [none |-> TRUE]
-Next == /\ out = "" /\ UNCHANGED <<kind, scn>>
-        /\ out' = CASE kind = "req" -> ToJson(ReqVec(scn))
-                    [] kind = "resp" -> ToJson(RespVec(scn))
-                    [] OTHER -> ToJson(Dims)
+Init == IF Mode = "scn"
+        THEN /\ scn = [none |-> TRUE]
+             /\ \/ kind = "req" /\ \E s \in ReqSpace : out = ToJson(ReqRec(s))
+                \/ kind = "resp" /\ \E s \in RespSpace : out = ToJson(RespRec(s))
+                \/ kind = "dims" /\ out = ToJson(Dims)
+        ELSE /\ out = ""
+             /\ \E i \in 1..Len(Chosen) : kind = Chosen[i].dir /\ scn = Chosen[i].s
+Next == /\ Mode = "vec" /\ out = "" /\ UNCHANGED <<kind, scn>>
+        /\ out' = IF kind = "req" THEN ToJson(ReqVec(scn)) ELSE ToJson(RespVec(scn))
 Spec == Init /\ [][Next]_<<out, kind, scn>>
 =============================================================================
